@@ -37,7 +37,8 @@ type FuncSpec struct {
 	IsIface    bool
 	Assume     bool // trusted contract of an external / unverified function
 	Implements []string
-	Uses       []string // lemmas made available to this function's obligations
+	Uses       []string          // lemmas made available to this function's obligations
+	Hints      map[int][]*Clause // proof hints asserted (proved, then assumed) after the k-th call
 	Props      []string
 	Lets       []*Clause
 	Requires   []*Clause
@@ -73,11 +74,15 @@ type Define struct {
 }
 
 type Axiom struct {
-	Props []string
-	Name  string
-	Text  string
-	E     Expr
-	Pkg   string
+	Uses    []string // lemmas a lemma's own proof may use (nil: all earlier ones)
+	HasUses bool
+	Measure Expr // induction measure (lemmas proved by strong induction on a non-negative measure)
+	Private bool // definitional axiom visible only inside lemma obligations
+	Props   []string
+	Name    string
+	Text    string
+	E       Expr
+	Pkg     string
 }
 
 type Decl struct {
@@ -103,7 +108,7 @@ var topKeywords = map[string]bool{"declare": true, "type": true, "func": true, "
 var subKeywords = map[string]bool{"requires": true, "ensures": true, "xensures": true, "invariant": true, "decreases": true,
 	"modifies": true, "let": true, "loop": true, "implements": true, "props": true, "pure": true, "nopanic": true, "inline": true,
 	"view": true, "modelfield": true, "guarded_by": true, "trusted": true, "safe": true, "opaque": true, "noverify": true, "immutable": true,
-	"assumes": true, "uses": true, "hypothesis": true, "mayblock": true, "terminates": true, "nilok": true, "noinv": true, "noxinv": true, "noframe": true, "constructor": true}
+	"hint": true, "assumes": true, "uses": true, "hypothesis": true, "mayblock": true, "terminates": true, "nilok": true, "noinv": true, "noxinv": true, "noframe": true, "constructor": true}
 
 var clauseHead = regexp.MustCompile(`^([a-z_]+)(\[[A-Za-z0-9, ]+\])?\s*(.*)$`)
 
@@ -242,6 +247,34 @@ func (c *Contracts) loadFile(path string) error {
 			if len(f) != 2 {
 				return fmt.Errorf("%s:%d: axiom NAME: expr", path, b.head.line)
 			}
+			var measure Expr
+			if i := strings.Index(f[0], " measure "); i >= 0 {
+				m, err := ParseExpr(f[0][i+len(" measure "):])
+				if err != nil {
+					return fmt.Errorf("%s:%d: measure: %v", path, b.head.line, err)
+				}
+				measure = m
+				f[0] = f[0][:i]
+			}
+			var luses []string
+			hasUses := false
+			if i := strings.Index(f[0], " uses "); i >= 0 {
+				hasUses = true
+				for _, u := range strings.Split(f[0][i+len(" uses "):], ",") {
+					if u = strings.TrimSpace(u); u != "" && u != "nothing" {
+						luses = append(luses, u)
+					}
+				}
+				f[0] = f[0][:i]
+			}
+			private := false
+			for i, t := range ltags {
+				if t == "private" {
+					private = true
+					ltags = append(ltags[:i], ltags[i+1:]...)
+					break
+				}
+			}
 			body := f[1]
 			for _, s := range b.subs {
 				body += " " + s.text
@@ -250,7 +283,7 @@ func (c *Contracts) loadFile(path string) error {
 			if err != nil {
 				return fmt.Errorf("%s:%d: %v", path, b.head.line, err)
 			}
-			a := &Axiom{ltags, strings.TrimSpace(f[0]), strings.TrimSpace(body), e, pkg}
+			a := &Axiom{luses, hasUses, measure, private, ltags, strings.TrimSpace(f[0]), strings.TrimSpace(body), e, pkg}
 			if w == "axiom" {
 				c.Axioms = append(c.Axioms, a)
 			} else {
@@ -360,6 +393,27 @@ func (c *Contracts) loadFile(path string) error {
 					for _, k := range strings.Split(cl.Text, ",") {
 						fs.Implements = append(fs.Implements, strings.TrimSpace(k))
 					}
+				case "hint":
+					// hint N: expr
+					i := strings.Index(cl.Text, ":")
+					if i < 0 {
+						return fmt.Errorf("%s:%d: hint N: expr", path, s.line)
+					}
+					n, err := strconv.Atoi(strings.TrimSpace(strings.TrimPrefix(strings.TrimSpace(cl.Text[:i]), "call")))
+					if err != nil {
+						return fmt.Errorf("%s:%d: hint N: expr", path, s.line)
+					}
+					e, err := ParseExpr(cl.Text[i+1:])
+					if err != nil {
+						return fmt.Errorf("%s:%d: %v", path, s.line, err)
+					}
+					cl.E = e
+					cl.Text = strings.TrimSpace(cl.Text[i+1:])
+					if fs.Hints == nil {
+						fs.Hints = map[int][]*Clause{}
+					}
+					cl.Ord = len(fs.Hints[n]) + 1
+					fs.Hints[n] = append(fs.Hints[n], cl)
 				case "uses":
 					fs.Uses = append(fs.Uses, strings.Fields(strings.ReplaceAll(cl.Text, ",", " "))...)
 				case "props":
